@@ -122,7 +122,7 @@ UNIT = {
 NOT_DECIDED = {
     'C01': [
         'an EMPTY list domain (known finding, see known_findings.json): run() is proved under the precondition that every domain is non-empty',
-        'For/Some/Every ExpressionEvaluator::evaluate (closures capturing the scope and the result accumulator) and everything that wires them to the AST (build_for/build_some/build_every)',
+        'For/Some/Every ExpressionEvaluator::evaluate: the per-round closures are decided in unit purity, the registration of the domains in unit forloop; that evaluate() passes exactly that closure to run() is R4 wiring',
         'that the iteration context binds each variable name to the value at its current position (names must be pairwise distinct); only the enumeration of positions is proved',
         
     ],
